@@ -139,7 +139,7 @@ func (b *byzCons) send(tgt int, m *pbv1.QBFTConsensusMsg, what string) {
 	if !w.hasStack(tgt) || tgt == b.idx || w.sched.isCrashed(tgt) || w.sched.isCrashed(b.idx) || w.stopped.Load() {
 		return
 	}
-	ctx, cancel := context.WithTimeout(w.ctx, 20*time.Second)
+	ctx, cancel := context.WithTimeout(w.ctx, 2*time.Second) // the handler blocks while the duty's receive buffer is full
 	defer cancel()
 	err := w.nodes[tgt].cons.VerifHandle(ctx, w.ids[b.idx], m)
 	if err != nil {
